@@ -122,6 +122,18 @@ def run(rep, props, replay=None):
                         # the retained components are not the leading ones (finding F1, decided by C01): the
                         # premise "the retained components span the centred curves" does not hold
                         rep.dist["roundtrip-premise-false(F1)"] = rep.dist.get("roundtrip-premise-false(F1)", 0) + 1
+                    # reconstructions, eigenfunctions, mean and stored training curves live on the sampling grid
+                    with warnings.catch_warnings():
+                        warnings.simplefilter("ignore")
+                        rec_any = f.inverse_transform(S0 if method == "covariance" else Si)
+                    for lab, obj in (("inverse_transform", rec_any), ("eigenfunctions", f.eigenfunctions), ("mean", f.mean),
+                                     ("stored training data", f._training_data)):
+                        ga = np.asarray(obj.argvals["input_dim_0"], float)
+                        if ga.shape != x.shape or not np.array_equal(ga, x):
+                            rep.violation(f"{lab} of UFPCA({method}, normalize={normalize}) is on other sampling points "
+                                          f"([{ga[0]:.4g} .. {ga[-1]:.4g}] instead of [{x[0]:.4g} .. {x[-1]:.4g}])",
+                                          {**opts, "X": C.hexf(X), "x": C.hexf(x)})
+                            break
                     if ncomp == r and spans:
                         Snat = S0 if method == "covariance" else Si
                         R = np.asarray(f.inverse_transform(Snat).values, float)
